@@ -223,7 +223,7 @@ int main(int argc, char **argv) {
         if (!strcmp(tok[0], "end")) {
             printf("case %s\n", id); fflush(stdout);
             pid_t pid = fork();
-            if (pid == 0) { alarm(20); run_case(lazy, detached, maxth, wall, sched, spur, nsched); fflush(stdout); _exit(0); }
+            if (pid == 0) { alarm(120);      /* watchdog of the harness itself; the orchestrator re-runs a case killed by it alone before judging */ run_case(lazy, detached, maxth, wall, sched, spur, nsched); fflush(stdout); _exit(0); }
             int st = 0; waitpid(pid, &st, 0);
             if (WIFSIGNALED(st)) printf("CRASH signal %d\n", WTERMSIG(st));
             else if (WEXITSTATUS(st) != 0) printf("CRASH exit %d\n", WEXITSTATUS(st));
